@@ -131,6 +131,7 @@ func (m *Machine) stub(fn *ssa.Function, args []Value) (Value, bool) {
 					break
 				}
 				a, b := sl.off+j, sl.off+j-1
+				m.noteWrite(sl.node, "element swap in "+name)
 				sl.node.elems[a], sl.node.elems[b] = sl.node.elems[b], sl.node.elems[a]
 			}
 		}
@@ -375,7 +376,7 @@ func initPkg(p string) bool {
 		return true
 	}
 	switch p {
-	case "encoding/base32", "encoding/base64", "github.com/go-i2p/crypto/types", "net/netip":
+	case "encoding/base32", "encoding/base64", "github.com/go-i2p/crypto/types", "net/netip", "io":
 		return true
 	}
 	return false
@@ -507,7 +508,7 @@ func execPkg(p string) bool {
 		return true
 	}
 	switch p {
-	case "encoding/binary", "encoding/base32", "encoding/base64", "time", "errors", "unicode/utf8", "math/bits", "slices", "bytes", "strings", "sort", "strconv", "unicode", "encoding/hex", "internal/bytealg", "internal/stringslite", "cmp", "math", "net", "net/netip", "internal/itoa", "internal/byteorder",
+	case "encoding/binary", "encoding/base32", "encoding/base64", "time", "errors", "unicode/utf8", "math/bits", "slices", "bytes", "strings", "sort", "strconv", "unicode", "encoding/hex", "internal/bytealg", "internal/stringslite", "cmp", "math", "net", "net/netip", "internal/itoa", "internal/byteorder", "io",
 		"github.com/go-i2p/crypto/types", "github.com/go-i2p/crypto/ed25519", "github.com/go-i2p/crypto/curve25519",
 		"github.com/go-i2p/crypto/ecdsa", "github.com/go-i2p/crypto/dsa", "github.com/go-i2p/crypto/elg", "github.com/go-i2p/crypto/red25519", "github.com/go-i2p/crypto/ed25519ph", "github.com/go-i2p/crypto/rsa":
 		return true
@@ -530,6 +531,10 @@ func (m *Machine) verifierInvoke(v *StubVerifier, method string, args []Value) V
 			alg += "-hash"
 		}
 		m.called[v.alg+".Verify"] = true
+		// the real verifiers reject a signature of the wrong length before any mathematics
+		if want := map[string]int{"dsa": 40, "ecdsa-p256": 64, "ecdsa-p384": 96, "ecdsa-p521": 132}[v.alg]; want != 0 && len(m.cellsOf(args[1])) != want {
+			return m.newErr("bad signature size", nil)
+		}
 		ok := m.sigValid(true, alg, v.key, m.cellsOf(args[0]), m.cellsOf(args[1]))
 		if m.branch(ok) {
 			return Iface{}
